@@ -214,12 +214,21 @@ func (h *harness) localHistories() {
 	}
 
 	var subjects []*localSubject
-	steps := r.Pick(36, 260)
+	steps := r.Pick(36, 200)
 	opsDone := map[string]int{}
 	for step := 0; step < steps; step++ {
 		var s *localSubject
 		op := ""
-		if len(subjects) < 3 || rnd.Intn(5) == 0 {
+		var live []*localSubject
+		for _, x := range subjects {
+			if !x.deactivated {
+				live = append(live, x)
+			}
+		}
+		if step%9 == 8 && len(live) >= 2 {
+			// every history has deactivations, whatever the seed (fewer than 2 active subjects here means deactivations already happened)
+			s, op = live[rnd.Intn(len(live))], "deactivate"
+		} else if len(subjects) < 3 || len(live) < 2 || rnd.Intn(5) == 0 {
 			op = "create"
 		} else {
 			s = subjects[rnd.Intn(len(subjects))]
@@ -348,11 +357,11 @@ func (h *harness) localHistories() {
 	}
 	// the server scripts and the key methods once more through the node's complete resolver chain
 	h.webScriptMatrix("node", res)
-	h.keyMethods(res, "node", r.Pick(150, 3000))
+	h.keyMethods(res, "node", r.Pick(150, 1500))
 	// the grammar once more, smaller, through the chain (local store first, then the web)
 	grnd := r.Rand("web-grammar-node")
 	classes := webClasses()
-	for i := 0; i < r.Pick(400, 8000); i++ {
+	for i := 0; i < r.Pick(400, 4000); i++ {
 		cl := classes[i%len(classes)]
 		c := deriveWeb(cl.name, fullDID(cl.gen(grnd)))
 		h.classStats[cl.name].Generated++
